@@ -417,7 +417,7 @@ def rexpr(e, inputs=None):
     if k == "nil":
         return "nil"
     if k == "str":
-        return '"%s"' % e[1]
+        return '"%s"' % e[1].replace("\\", "\\\\").replace('"', '\\"').replace("\n", "\\n").replace("\r", "\\r").replace("\t", "\\t")
     if k == "var":
         return e[1]
     if k == "bin":
